@@ -77,7 +77,7 @@ class ReplayChooser:
         v = self._next(name)
         return float(v)
 
-    def sym_str(self, name, maxlen):
+    def sym_str(self, name, maxlen, maxcp=0x10FFFF):
         return str(self._next(name))
 
     def traced(self):
@@ -148,11 +148,11 @@ def make_chooser():
                 self.trace.append([name, None])
                 return v
 
-        def sym_str(self, name, maxlen):
-            """symbolic string (CrossHair's lazily generated code points) of length <= maxlen"""
+        def sym_str(self, name, maxlen, maxcp=0x10FFFF):
+            """symbolic string (CrossHair's lazily generated code points) of length <= maxlen, code points <= maxcp"""
             with NoTracing():
-                from crosshair.libimpl.builtinslib import LazyIntSymbolicStr
-                v = LazyIntSymbolicStr(self._name(name))
+                from crosshair.libimpl.builtinslib import LazyIntSymbolicStr, SymbolicBoundedIntTuple
+                v = LazyIntSymbolicStr(SymbolicBoundedIntTuple([(0, maxcp)], self._name(name)))
                 self.space.add(v._codepoints._len.var <= maxlen)
                 self._syms[len(self.trace)] = v
                 self.trace.append([name, None])
